@@ -269,3 +269,89 @@ func oracleTypes(in, outp string) {
 func discoveryRequest(url string) *discovery.DiscoveryRequest {
 	return &discovery.DiscoveryRequest{TypeUrl: url}
 }
+
+// genTproc: EVERY row of the type table through the REAL request / push handlers, SotW and delta: a scripted exchange
+// (first request, ACK, NACK, stale nonce, added names, removal, unsubscribe / wildcard request, push, a failing
+// stream) and a few random ones per row.  The health type is left to stream recv (its handler needs the workload
+// entry controller of a full server).
+func genTproc(seed uint64, n int, outp string) {
+	out := wire.Create(outp)
+	defer out.Close()
+	cs, err := allTypeConstants()
+	if err != nil {
+		fmt.Fprintln(os.Stderr, "gen tproc:", err)
+		os.Exit(1)
+	}
+	root := wire.NewRng(seed ^ 0x7C04)
+	c := 0
+	open := func(mode string, tc typeConst) {
+		out.Line("case", strconv.Itoa(c), "tproc", mode, wire.Enc(tc.name), wire.Enc(tc.url))
+		c++
+	}
+	perRow := 1 + n/(2*len(cs))
+	for _, tc := range cs {
+		if tc.url == v3.HealthInfoType {
+			continue
+		}
+		// state of the world
+		open("sotw", tc)
+		for _, l := range [][]string{
+			{"req", "T", "a,b", "empty", "-"}, {"req", "T", "a,b", "cur", "-"}, {"req", "T", "a,b", "cur", "e:boom"},
+			{"req", "T", "a,b,c", "stale", "-"}, {"req", "T", "a,b,c", "cur", "-"}, {"req", "T", "a,b,c", "cur", "-"},
+			{"req", "T", "a", "cur", "-"}, {"push"}, {"req", "T", "a", "cur", "-"}, {"req", "T", "-", "cur", "-"},
+			{"req", "T", "b", "prev", "e:boom"}, {"fail", "1"}, {"req", "T", "b,c", "cur", "-"}, {"fail", "0"},
+			{"req", "T", "b,c", "cur", "-"}, {"fpush"}, {"req", "T", "*", "cur", "-"},
+		} {
+			out.Line(l...)
+		}
+		// delta
+		open("delta", tc)
+		for _, l := range [][]string{
+			{"dreq", "T", "a,b", "-", "-", "empty", "-"}, {"dreq", "T", "-", "-", "-", "cur", "-"},
+			{"dreq", "T", "-", "-", "-", "cur", "e:boom"}, {"dreq", "T", "c", "-", "-", "stale", "-"},
+			{"dreq", "T", "-", "-", "-", "cur", "-"}, {"dreq", "T", "-", "a", "-", "cur", "-"}, {"dpush"},
+			{"dreq", "T", "b", "-", "-", "empty", "-"}, {"dreq", "T", "*", "-", "-", "empty", "-"},
+			{"fail", "1"}, {"dreq", "T", "x", "-", "-", "empty", "-"}, {"fail", "0"}, {"dfpush"},
+			{"dreq", "T", "-", "*,x", "-", "cur", "e:rejected"},
+		} {
+			out.Line(l...)
+		}
+		open("delta", tc)
+		out.Line("dreq", "T", "-", "-", "a", "stale", "e:boom") // a NACK queued on the previous stream, legacy wildcard
+		out.Line("dreq", "T", "-", "-", "-", "cur", "-")
+		// random exchanges
+		for k := 0; k < perRow; k++ {
+			r := root.Fork()
+			delta := r.Chance(1, 2)
+			if delta {
+				open("delta", tc)
+			} else {
+				open("sotw", tc)
+			}
+			nonce := func() string {
+				return wire.Pick(r, []string{"cur", "cur", "cur", "cur", "empty", "stale", "prev", "failed"})
+			}
+			errTok := func() string {
+				if r.Chance(1, 8) {
+					return "e:boom"
+				}
+				return "-"
+			}
+			for i := 2 + r.Intn(14); i > 0; i-- {
+				switch k := r.Intn(10); {
+				case k < 7 && !delta:
+					out.Line("req", "T", wire.EncList(genNames(r, true)), nonce(), errTok())
+				case k < 7:
+					univ := append([]string{"*"}, nameUniverse...)
+					out.Line("dreq", "T", wire.EncList(wire.Subset(r, univ, 1, 3)), wire.EncList(wire.Subset(r, univ, 1, 6)), "-", nonce(), errTok())
+				case k < 9 && !delta:
+					out.Line(wire.Pick(r, []string{"push", "fpush", "apush"}))
+				case k < 9:
+					out.Line(wire.Pick(r, []string{"dpush", "dfpush", "dapush"}))
+				default:
+					out.Line("fail", wire.B(r.Chance(1, 2)))
+				}
+			}
+		}
+	}
+}
